@@ -286,19 +286,23 @@ def candidate_dataflow(ctx, clause):
         # class key: outermost loop variable over the profile, or the parameter used as first index
         prob = kw.get("probability")
         nocc = kw.get("n_occurences")
-        if not isinstance(prob, ast.Name) or not isinstance(nocc, ast.Name):
+        # a figure is a local bound once, or the expression itself (whether a step has a name is a spelling)
+        value_of = lambda e: (_single_def(f, e.id) if isinstance(e, ast.Name) and e.id in f.local_names else e)
+        if prob is None or nocc is None or (isinstance(prob, ast.Name) and value_of(prob) is None) or (isinstance(nocc, ast.Name) and value_of(nocc) is None):
             problems.append("probability / n_occurences are not plain variables")
         else:
-            pd = _single_def(f, prob.id)
+            pd = value_of(prob)
             if not (isinstance(pd, ast.Call) and isinstance(pd.func, ast.Attribute) and pd.func.attr == freq.name):
                 problems.append("probability is not the result of _compute_frequency")
             else:
                 b = bind_args(pd, freq)["bound"]
                 a_inst, a_occ = b.get(inst_param), b.get(occ_param)
-                if not (isinstance(a_occ, ast.Name) and a_occ.id == nocc.id):
+                same_occ = a_occ is not None and norm(_expand(f, value_of(a_occ) if isinstance(a_occ, ast.Name) else a_occ)) == \
+                    norm(_expand(f, value_of(nocc)))
+                if not same_occ:
                     problems.append("the frequency is computed from `%s` but the statement reports n_occurences=`%s`" % (
-                        norm(a_occ) if a_occ is not None else "?", nocc.id))
-                nd = _expand(f, _single_def(f, nocc.id))
+                        norm(a_occ) if a_occ is not None else "?", norm(nocc)[:40]))
+                nd = _expand(f, value_of(nocc))
                 idx = []
                 cur = nd
                 while isinstance(cur, ast.Subscript):
@@ -390,7 +394,7 @@ def shape_sites(ctx, clause):
             if not ok:
                 problems.append("n_instances=`%s` is not int(float(self._class_counts_dict[%s]))" % (norm(ni) if ni is not None else "?", cu.id))
             nm = kw.get("name")
-            d = _single_def(f, nm.id) if isinstance(nm, ast.Name) else None
+            d = _single_def(f, nm.id) if isinstance(nm, ast.Name) else nm          # a named step or the call itself
             ok = isinstance(d, ast.Call) and isinstance(d.func, ast.Name) and d.func.id == "build_shapes_name_for_class_uri"
             if ok:
                 kk = {k.arg: k.value for k in d.keywords}
@@ -413,7 +417,8 @@ def no_arithmetic_on_figures(ctx, clause):
                 v = kw.get(field)
                 if v is None:
                     continue
-                ok = isinstance(v, (ast.Name, ast.Constant)) or (isinstance(v, ast.Attribute) and v.attr == field)
+                ok = isinstance(v, (ast.Name, ast.Constant)) or (isinstance(v, ast.Attribute) and v.attr == field) \
+                    or (isinstance(v, (ast.Subscript, ast.Call)) and not any(isinstance(x, ast.BinOp) for x in ast.walk(v)))   # a read / a call, no sum
                 obs.append(Ob(clause, "R-FLOW", "R-FLOW|figure-arithmetic|%s|%s" % (cs.func.short, field), cs.func.loc(cs.node), ok,
                               "%s of the new statement is a copy of a measured figure" % field if ok else
                               "%s of the new statement is computed: `%s` (two instance sets are summed although one instance can be in "
